@@ -469,6 +469,41 @@ def make_nested_market_strategy(seed):
     return NestedMarket
 
 
+def make_close_hook_strategy(seed):
+    """orders created in the CLOSE hook: a position is stopped out / takes profit in the middle of a minute and
+    on_close_position bids again one tick further along (through the real strategy layer, so that the order store is
+    reset by _execute_cancel before the new order is added); the rest of the minute's path often reaches it"""
+    from jesse.strategies import Strategy
+
+    class CloseHook(Strategy):
+        def should_long(self):
+            return self.index % 3 == 1
+
+        def should_short(self):
+            return False
+
+        def go_long(self):
+            self.buy = 2, self.price
+            self.stop_loss = 2, self.price - 1 - seed % 2
+            self.take_profit = 2, self.price + 2
+
+        def should_cancel_entry(self):
+            return True
+
+        def on_close_position(self, order):
+            if order.type == 'MARKET':
+                return
+            if order.side == 'sell' and order.type == 'STOP':
+                self.broker.buy_at(1, order.price - 1 - seed % 3)      # stopped out: bid again a little lower
+            else:
+                self.broker.sell_at(1, order.price + 1 + seed % 2)     # took profit: offer again a little higher
+
+        def update_position(self):
+            if self.stop_loss is None and self.take_profit is None:
+                self.liquidate()                                        # a re-entry that filled: get out at market
+    return CloseHook
+
+
 def make_hook_market_strategy(seed):
     """a ladder of resting entries; the fill hook of the first entry closes at market (liquidate(), or an exit declared
     at the current price) while the other entries still rest further along the path"""
@@ -538,6 +573,8 @@ def run_vivo(item):
             cls = make_cancel_race_strategy(item['policy']['seed'])
         elif item.get('strategy') == 'nested_market':
             cls = make_nested_market_strategy(item['policy']['seed'])
+        elif item.get('strategy') == 'close_hook':
+            cls = make_close_hook_strategy(item['policy']['seed'])
         elif item.get('strategy') == 'hook_market':
             cls = make_hook_market_strategy(item['policy']['seed'])
         out = run_backtest(item['policy'], cfg, {sym: raws[sym].copy() for sym in syms}, routes=routes, fast=item['fast'],
